@@ -34,7 +34,7 @@ def cases(tier, seed):
     for name in FUNC_OPS:
         for sparse in (False, True):
             out.append({'kind': 'op', 'op': name, 'sparse': sparse, 'backend': 'default'})
-        if tier != 'quick':
+        if tier != 'quick' or name in ('F1', 'F4'):
             out.append({'kind': 'op', 'op': name, 'sparse': False, 'backend': 'jax'})
     # circuits with edges (C01 library), scalar
     nodes = ['L', 'SA', 'AO', 'T1', 'T2', 'LT', 'PT', 'XV'] if tier == 'quick' else gen.QUICK_NODES
